@@ -53,6 +53,15 @@ MUTANTS = [
     ('c17-distance2-root', [('src/rtree_nn.rs', '        self.loc().distance_squared(DVec3 {\n            x: point[0],\n            y: point[1],\n            z: point[2],\n        })', '        self.loc().distance(DVec3 {\n            x: point[0],\n            y: point[1],\n            z: point[2],\n        })')], {'C17': ['R5']}),
     ('c19-intersect-planes-swapped', [('src/geometry.rs', 'pub fn signed_volume_tet(v0: DVec3, v1: DVec3, v2: DVec3, v3: DVec3) -> f64 {\n    let v01 = v1 - v0;\n    let v02 = v2 - v0;', 'pub fn signed_volume_tet(v0: DVec3, v1: DVec3, v2: DVec3, v3: DVec3) -> f64 {\n    let v01 = v2 - v0;\n    let v02 = v1 - v0;')], {'C19': ['R4'], 'C01': ['R6']}),
     ('c20-cwidth-x-again-F5', [('src/space.rs', 'y: j as f64 * c_width.y,', 'y: j as f64 * c_width.x,')], {'C20': ['R1']}),
+    ('c01-cycle-start-fixup-wrong', [('src/simple_cycle.rs', '                if self.start == tri[j] {', '                if self.start == tri[k] {')], {'C01': ['R7']}),
+    ('c01-cycle-extend-wrong-successor', [('src/simple_cycle.rs', '                self.ptrs[tri[i]] = tri[j];', '                self.ptrs[tri[i]] = tri[k];')], {'C01': ['R7']}),
+    ('c01-walk-does-not-close', [('src/voronoi/convex_cell.rs', 'self.boundary.iter().take(self.boundary.len + 1);', 'self.boundary.iter().take(self.boundary.len);')], {'C01': ['R7']}),
+    ('c01-triple-offered-reversed', [('src/voronoi/convex_cell.rs', 'match boundary.try_extend(vertex[0], vertex[1], vertex[2]) {', 'match boundary.try_extend(vertex[0], vertex[2], vertex[1]) {')], {'C01': ['R7']}),
+    ('c14-decomposition-wrong-neighbour-projection', [('src/voronoi/convex_cell.rs', '            self.projections[(self.cur_tet_idx + 5) % 6],', '            self.projections[(self.cur_tet_idx + 1) % 6],')], {'C14': ['R5']}),
+    ('c14-decomposition-wrong-label', [('src/voronoi/convex_cell.rs', '            self.cur_vertex.dual[self.cur_tet_idx / 2],', '            self.cur_vertex.dual[self.cur_tet_idx % 3],')], {'C14': ['R5']}),
+    ('c15-vertex-listed-twice-on-one-plane', [('src/voronoi/convex_cell.rs', '            face_vertex_connections[vertex.dual[2]].push(idx);', '            face_vertex_connections[vertex.dual[1]].push(idx);')], {'C15': ['R7']}),
+    ('c15-face-offset-off-by-one', [('src/voronoi/convex_cell.rs', '                offset += face.vertex_count;', '                offset += face.vertex_count + 1;')], {'C15': ['R7']}),
+    ('c20-ring-thickness-global-min', [('src/space.rs', 'let min_dist_to_ring = dist_to_face + r as f64 * self.cells[0].width.min_element();', 'let min_dist_to_ring = dist_to_face + r as f64 * self.cells[0].width.max_element();')], {'C20': ['R2']}),
 ]
 
 BENIGN = [
